@@ -275,6 +275,19 @@ func TestConcurrentHistories(t *testing.T) {
 		}
 		close(start)
 		wg.Wait()
+		// epilogue, after everything has returned: one client asks, one call at a time, for every shared name with every small
+		// version as "the version I hold" -- whatever the races above did, these answers come from the state they left
+		if condMix || r.Intn(3) == 0 {
+			for _, n := range shared {
+				for v := 1; v <= 3; v++ {
+					c := Call{Op: "getcond", Who: clients[0], Rules: suRules, Name: n, Val: "Nil", Ver: v, Fault: "none"}
+					log.add(beginEvent{Ev: "begin", Cl: clients[0], Op: c.Op, Who: c.Who, Rules: c.Rules, Name: c.Name, Val: c.Val, Ver: c.Ver})
+					out := sys.DoConc(c)
+					log.add(endEvent{Ev: "end", Cl: clients[0], Reply: outcomeReply(d, out)})
+					totalCalls++
+				}
+			}
+		}
 		for _, e := range log.evs {
 			w.Put(e)
 		}
@@ -315,6 +328,18 @@ func TestConcurrentHistories(t *testing.T) {
 		st, notes := sys.Observe(true)
 		if len(notes) > 0 {
 			res.Violate("final-observe", fmt.Sprint(notes), nil)
+		}
+		if !realFile {
+			// everything has returned: what a restart would load (a copy of the file is opened) is what the server serves
+			sys.ObserveCopy = true
+			dst, dnotes := sys.Observe(true)
+			sys.ObserveCopy = false
+			if len(dnotes) > 0 {
+				res.Violate("final-disk-observe", fmt.Sprint(dnotes), nil)
+			} else if StateKey(dst, true) != StateKey(st, true) {
+				res.Violate("final-disk", fmt.Sprintf("after all concurrent calls have returned the database file holds {%s} but the server serves {%s}: a restart now loses or resurrects acknowledged changes",
+					StateKey(dst, true), StateKey(st, true)), map[string]any{"events": log.evs})
+			}
 		}
 		var keep []SecState
 		for _, s := range st {
